@@ -31,7 +31,7 @@ def parseFrame (s : String) : Option Frame :=
     else none
   | _ => none
 
-def jsonM : Marshaler := { mime := jsonMime, binary := false, stream := true }
+def jsonM : Marshaler := jsonMarshaler
 def binM : Marshaler := { mime := binMime, binary := true, stream := false }
 /-- the transcoder configuration of the harness: JSON (default) and a binary, non-streaming marshaler -/
 def marshalers : List Marshaler := [jsonM, binM]
@@ -68,6 +68,8 @@ def handleHTTP (i o : List String) : String :=
         "VIOL payload-breaks-framing (encoder emitted a raw line break)"
       else if status = 200 && ss && !cs && recsL ≠ msgsL then
         s!"VIOL records got={recsL.length} want={msgsL.length} (records read back by the client differ from the messages sent)"
+      else if status = 200 && ss && !cs && !(if rct = toHex sseMime then sseClean body else lineRest body = []) then
+        "VIOL stray-bytes-after-records (the stream body does not end at a record boundary: something other than a framed record was written)"
       else if status = 200 && ss && !cs && flush ≠ "ok" then "VIOL not-flushed-per-message"
       -- model = implementation
       else if status ≠ exp.status then s!"DIFF model=status:{exp.status}"
@@ -239,7 +241,94 @@ def handleWSUp (i o : List String) : String :=
     | _, _ => "BAD wsup fields"
   | _, _ => "BAD wsup arity"
 
+/-- `application/x-c13-bin` -/
+def glueBinMime : Bytes := ascii "application/x-c13-bin"
+/-- the harness's binary codec of the `glue` op: flagged binary, own content type, can stream -/
+def glueBinM : Marshaler := { mime := glueBinMime, binary := true, stream := true }
+
+def parseGlueOpts (s : String) : Option (List BridgeOpt) :=
+  (s.splitOn "+").foldlM (fun acc part =>
+    match part with
+    | "none" => some acc
+    | "mj" => some (acc ++ [.withMarshalers [jsonM]])
+    | "mjb" => some (acc ++ [.withMarshalers [jsonM, glueBinM]])
+    | "mb" => some (acc ++ [.withMarshalers [glueBinM]])
+    | "db" => some (acc ++ [.withDefaultMarshaler glueBinM])
+    | _ => none) []
+
+def glueSel : String → List Bytes
+  | "j" => [jsonMime]
+  | "b" => [glueBinMime]
+  | _ => []
+
+def parseEntry : String → Option Entry
+  | "http" => some .http | "sse" => some .sse | "ws" => some .ws | _ => none
+
+/-- `glue <opts> <entry> <kind> <content-type> <accept> <frames> <resp…>
+      => <status> <content-type|-> <records kind:codec:text…> <close|-> <received…|-> <ret>`
+    The bridge was built by the root constructor; the prediction uses the transcoder every entry point
+    must share (`wiredTranscoder`, theorem `C13_entry_points_share_transcoder`). -/
+def handleGlue (i o : List String) : String :=
+  match i, o with
+  | [_, optS, entryS, kind, ctS, accS, frames, resp], [status, rct, recs, close, recv, ret] =>
+    match parseGlueOpts optS, parseEntry entryS with
+    | some opts, some entry =>
+      let cs := kind = "bidi"
+      let t := entryTranscoder (wiredTranscoder opts) entry
+      let accept := if entry = .sse then [sseMime] else glueSel accS
+      let req : BindReq := { accept, contentType := glueSel ctS, cs, ss := true }
+      let respL := parseListStr resp
+      let recsL := parseListStr recs
+      let recvL := parseListStr recv
+      -- per-record rule that needs no model: a WebSocket record of the binary codec travels in a binary
+      -- frame, one of a text codec in a text frame
+      if recsL.any (fun r => r.startsWith "t:b:" || r.startsWith "b:j:") then
+        "VIOL frame-kind (a record was sent in the wrong WebSocket frame type for the codec that produced it)"
+      else if recsL.any (fun r => (r.splitOn ":")[1]? = some "!") then "VIOL record-undecodable"
+      else
+      match bind t.ms t.dflt req with
+      | .error e =>
+        if status ≠ toString (bindErrStatus e) then s!"DIFF model=status:{bindErrStatus e}"
+        else s!"OK nt b=glue-{entryS}-{status}"
+      | .ok b =>
+        let codec := if b.respM.binary then "b" else "j"
+        if entry ≠ .ws then
+          if cs then
+            (if status ≠ "501" then s!"DIFF model=status:501" else s!"OK nt b=glue-{entryS}-501")
+          else
+            let k := if b.isSSE then "e" else "l"
+            let recsExp := respL.map (fun x => s!"{k}:{codec}:{x}")
+            if status ≠ "200" then s!"DIFF model=status:200"
+            else if recsL.any (fun r => (r.splitOn ":")[1]? ≠ some codec) then
+              s!"VIOL entry-point-codec want={codec} (records were not produced by the codec the bridge options select for this request)"
+            else if recsL ≠ recsExp then s!"VIOL records got={recsL.length} want={recsExp.length}"
+            else if rct ≠ toHex (responseContentType b) then s!"DIFF model=ct:{toHex (responseContentType b)}"
+            else s!"OK nt b=glue-{entryS}-{codec}"
+        else
+          let cfg : Cfg := { cs, body := true, expectBinary := b.reqM.binary }
+          let fs : List Frame := (if frames = "-" then [] else frames.toList).zipIdx.map
+            (fun (c, n) => { binary := c = 'b', malformed := false, text := ascii s!"f{n}" })
+          let deliv := expectedDelivered cfg fs
+          let bad := firstBad cfg fs
+          let recvExp := deliv.map (fun f => toHex f.text)
+          let k := if b.respM.binary then "b" else "t"
+          let recsExp := if bad.isSome then [] else respL.map (fun x => s!"{k}:{codec}:{x}")
+          if status ≠ "101" then s!"DIFF model=status:101"
+          else if recsL.any (fun r => (r.splitOn ":")[1]? ≠ some codec) then
+            s!"VIOL entry-point-codec want={codec} (records were not produced by the codec the bridge options select for this request)"
+          else if bad.isNone && close = "c1003" then
+            "VIOL frame-refused (a frame of the type the configured request codec expects was refused with 1003)"
+          else if bad.isSome && close ≠ "c1003" then s!"VIOL wrong-frame-type-not-1003 got={close}"
+          else if recvL ≠ recvExp then s!"VIOL in-records got={recvL.length} want={recvExp.length}"
+          else if recsL ≠ recsExp then s!"VIOL records got={recsL.length} want={recsExp.length}"
+          else if bad.isNone && close ≠ "c1000" then s!"DIFF model=close:c1000"
+          else if ret ≠ "ok" then "DIFF model=ret:ok"
+          else s!"OK nt b=glue-ws-{codec}{if bad.isSome then "-1003" else ""}"
+    | _, _ => "BAD glue fields"
+  | _, _ => "BAD glue arity"
+
 def handle : Handler
+  | "glue" :: i, o => handleGlue ("glue" :: i) o
   | "http" :: i, o => handleHTTP ("http" :: i) o
   | "ws" :: i, o => handleWS ("ws" :: i) o
   | "bind" :: i, o => handleBind ("bind" :: i) o
